@@ -50,8 +50,9 @@ Lb(c) == LastNZ(EffB(c))
 Lm(c) == La(c) - 1
 Zero(c) == IF c.zero = "sym" THEN ZSym ELSE LZero(NS)
 
-\* a callable memory is called once, with the needed size
+\* a callable memory is called once, with the needed size (when nothing is needed, not asking at all is as good)
 MemAsked(c) == <<Lm(c)>>
+MemAskedOK(c, asked) == asked = MemAsked(c) \/ (Lm(c) = 0 /\ asked = <<>>)
 \* memory after the code's normalisation: None -> zeros; iterable/callable -> its first lm items
 MemInit(c) == [j \in 1..Lm(c) |-> IF c.mem = "none" THEN Zero(c) ELSE MSym(j)]
 
